@@ -17,7 +17,8 @@
 //   - vars: every local variable or parameter reachable from those arguments through defining
 //     expressions: kind (parameter i / local / …), type, and EVERY assignment to it (enclosing
 //     constructs, right-hand side, result index, called function), whether its address is taken.
-//   - writes: every `v.f = e` / `v[k] = e` / `v.f++` on such a variable (how the share maps are built).
+//   - writes: every `v.f = e` / `v[k] = e` / `v.f++` on such a variable (how the share maps are built);
+//     aliases: every `y := v` / `y = &v` / `y := *v` (a second name through which v could be changed).
 //   - uses: every occurrence of the variables that hold a component, a gater / deadliner / verifier
 //     function value, a map or a cluster.NodeIdx: what is done with it (argument i of which call,
 //     method called, …) — a second producer into the Broadcaster, or a share index going to the wrong
@@ -133,6 +134,7 @@ type fnCtx struct {
 	addr     map[types.Object]bool
 	kind     map[types.Object]string
 	writes   []writeRec
+	aliases  []writeRec // `y := x`, `y = &x`, `y := *x` for a local variable x
 	unsupDef map[types.Object]string
 }
 
@@ -403,6 +405,11 @@ func (f *fnCtx) scanDefs() {
 			for i, l := range s.Lhs {
 				l = ast.Unparen(l)
 				rhs, res := pick(s.Lhs, s.Rhs, i)
+				if o := aliasOf(p, rhs); o != nil && len(s.Lhs) == len(s.Rhs) {
+					if id, ok := l.(*ast.Ident); !ok || id.Name != "_" {
+						f.aliases = append(f.aliases, writeRec{obj: o, at: s, lhs: l, rhs: rhs})
+					}
+				}
 				pre := ""
 				if s.Tok != token.DEFINE && s.Tok != token.ASSIGN {
 					pre = s.Tok.String() + " "
@@ -448,6 +455,9 @@ func (f *fnCtx) scanDefs() {
 					d.txt = "<zero>"
 				case len(s.Values) == len(s.Names):
 					d.rhs = s.Values[i]
+					if a := aliasOf(p, s.Values[i]); a != nil && nm.Name != "_" {
+						f.aliases = append(f.aliases, writeRec{obj: a, at: s, lhs: nm, rhs: s.Values[i]})
+					}
 				case len(s.Values) == 1:
 					d.rhs, d.res = s.Values[0], i
 				default:
@@ -507,6 +517,36 @@ func (f *fnCtx) scanDefs() {
 		}
 		return true
 	})
+}
+
+// aliasOf: e is `x`, `&x`, `*x` (or `&x.f…`) for a local variable x: the variable.
+func aliasOf(p *pkgCtx, e ast.Expr) types.Object {
+	if e == nil {
+		return nil
+	}
+	e = ast.Unparen(e)
+	switch x := e.(type) {
+	case *ast.UnaryExpr:
+		if x.Op != token.AND {
+			return nil
+		}
+		r := rootIdent(x.X)
+		if r == nil {
+			return nil
+		}
+		if o := p.objOf(r); o != nil && isLocalVar(o) {
+			return o
+		}
+		return nil
+	case *ast.StarExpr:
+		e = ast.Unparen(x.X)
+	}
+	if id, ok := e.(*ast.Ident); ok {
+		if o := p.objOf(id); o != nil && isLocalVar(o) {
+			return o
+		}
+	}
+	return nil
 }
 
 // path: the enclosing constructs of n inside its function, outermost first.
@@ -717,6 +757,7 @@ var (
 	vars      []*varRow
 	varOf     = map[types.Object]int{}
 	writeRows []writeRow
+	aliasRows []writeRow
 	useRows   []useRow
 	useVars   = map[int]bool{}
 )
@@ -1148,6 +1189,13 @@ func main() {
 				}
 				writeRows = append(writeRows, wr)
 			}
+			for _, w := range f.aliases {
+				if w.obj != v.obj {
+					continue
+				}
+				aliasRows = append(aliasRows, writeRow{v: i, path: internPath(f.path(w.at)), lhs: intern(p.text(w.lhs)),
+					rhs: intern(p.text(w.rhs)), rhsVar: -1})
+			}
 		}
 	}
 	for _, v := range vars {
@@ -1468,6 +1516,12 @@ deriving Repr
 	tb.WriteString("def writes : List Write := [\n")
 	for i, w := range writeRows {
 		fmt.Fprintf(&tb, "  ⟨%d, %s, %d, %d, %s⟩%s\n", w.v, natList(w.path), w.lhs, w.rhs, optNat(w.rhsVar), sep(i, len(writeRows)))
+	}
+	tb.WriteString("]\n\n")
+	tb.WriteString("/-- `y := x`, `y = &x`, `y := *x`: another name for (or a copy of) variable `var`; `lhs` is y, `rhs` the right-hand side. -/\n")
+	tb.WriteString("def aliases : List Write := [\n")
+	for i, w := range aliasRows {
+		fmt.Fprintf(&tb, "  ⟨%d, %s, %d, %d, %s⟩%s\n", w.v, natList(w.path), w.lhs, w.rhs, optNat(w.rhsVar), sep(i, len(aliasRows)))
 	}
 	tb.WriteString("]\n\n")
 	tb.WriteString("def uses : List Use := [\n")
